@@ -1,26 +1,41 @@
 """SimFS - the simulated disk.
 
-An in-memory POSIX-like tree (path -> bytes, plus a set of directories) that
-productmd reaches through the seams installed by simfw.seams.  Behaviour that
-the properties can observe is kept faithful to a real file system:
+Every path the simulation hands to productmd lives under the virtual root "/sim".  The disk behind it is a REAL,
+private, freshly wiped directory on tmpfs (one per worker process); what makes it a *simulated* disk is the
+interposition layer installed by simfw.seams: builtins.open / io.open and every os.* function that takes a path are
+wrapped, translate "/sim/..." to the private directory, record an I/O trace and inject the read-side faults a run's
+fault plan arms (EIO / EACCES on open, EIO at a byte offset, file vanishing between exists() and open(), adversarial
+listdir order).  Consequences:
 
-* open(p, "w") truncates AT OPEN TIME and creates the file; the parent
-  directory must exist.
-* text written is buffered in the handle and reaches the disk on
-  flush()/close()/context exit - also when the with-block is left by an
-  exception (exactly like a real buffered file object).
-* open(p) / open(p, "rb") read a snapshot taken at open time.
-* read handles never return short reads (a BufferedReader over a regular file
-  does not either).
+* POSIX behaviour the properties can observe (truncate at open time, buffered writes reaching the disk on
+  flush/close - also when a with-block is left by an exception, rename atomicity, ENOENT for a missing parent, ...)
+  is the kernel's own, not a model of it;
+* any I/O route the code under test may take (open, io.open, codecs.open, pathlib, os.open + os.fdopen, tempfile +
+  os.replace, shutil) reaches the same disk, so a change of route (e.g. an atomic-write refactoring) is not mistaken
+  for a violation;
+* productmd only ever sees the deterministic "/sim/..." strings, so messages and logs do not depend on the private
+  directory's random name.
 
-Every call is appended to the I/O trace.  Read-side fault points are armed
-explicitly by a run's fault plan; each firing is counted in ctx.faults.
+Read handles never return short reads (a BufferedReader over a regular file does not either).
 """
+import builtins
 import errno
 import io
+import os
 import posixpath
+import shutil
+import tempfile
 
 ROOT = "/sim"
+
+# originals, captured before any interposition
+_o_open = builtins.open
+_o = dict((n, getattr(os, n)) for n in (
+    "stat", "lstat", "listdir", "scandir", "mkdir", "rmdir", "remove", "unlink", "rename", "replace", "chmod", "utime",
+    "access", "truncate", "open", "link", "symlink", "readlink", "makedirs", "getpid", "walk"))
+_FIXED_MTIME = 1000000000
+
+_roots = {}
 
 
 def norm(path):
@@ -34,78 +49,95 @@ def under_root(path):
     return isinstance(path, str) and (path == ROOT or path.startswith(ROOT + "/"))
 
 
-class _WriteHandle(io.StringIO):
-    def __init__(self, fs, path):
-        io.StringIO.__init__(self)
+def real_root():
+    pid = _o["getpid"]()
+    r = _roots.get(pid)
+    if r is None:
+        base = "/dev/shm" if os.path.isdir("/dev/shm") and _o["access"]("/dev/shm", os.W_OK) else None
+        r = tempfile.mkdtemp(prefix="pmd-sim-%d-" % pid, dir=base)
+        _roots.clear()          # a forked child never uses its parent's directory
+        _roots[pid] = r
+    return r
+
+
+def sweep_stale():
+    """remove private directories left behind by processes that no longer exist (killed runs)"""
+    for base in ("/dev/shm", tempfile.gettempdir()):
+        try:
+            names = _o["listdir"](base)
+        except OSError:
+            continue
+        for n in names:
+            if not n.startswith("pmd-sim-"):
+                continue
+            try:
+                pid = int(n.split("-")[2])
+            except (IndexError, ValueError):
+                continue
+            if not os.path.exists("/proc/%d" % pid):
+                shutil.rmtree(os.path.join(base, n), ignore_errors=True)
+
+
+def cleanup():
+    pid = _o["getpid"]()
+    r = _roots.pop(pid, None)
+    if r:
+        shutil.rmtree(r, ignore_errors=True)
+
+
+def to_real(path):
+    """'/sim/x' -> '<private dir>/x' (only called for paths under the virtual root)"""
+    p = norm(path)
+    return real_root() + p[len(ROOT):]
+
+
+def to_sim(real):
+    r = real_root()
+    if isinstance(real, str) and real.startswith(r):
+        return ROOT + real[len(r):]
+    return real
+
+
+def translate(path):
+    """for the os.* wrappers: str / PathLike under the virtual root -> real path; anything else unchanged"""
+    if isinstance(path, int) or path is None:
+        return path
+    try:
+        p = os.fspath(path)
+    except TypeError:
+        return path
+    if isinstance(p, bytes):
+        try:
+            ps = p.decode("utf-8")
+        except UnicodeDecodeError:
+            return path
+        return to_real(ps).encode("utf-8") if under_root(ps) else path
+    if under_root(p):
+        return to_real(p)
+    return path
+
+
+class _TracingReader(object):
+    """what open(p, 'rb') returns under the virtual root: the real file object with every read recorded and an
+    optional EIO armed at a byte offset"""
+
+    def __init__(self, f, fs, simpath, eio_at=None):
+        self._f = f
         self._fs = fs
-        self._path = path
-        self._done = False
-        self.name = path
-        self.mode = "w"
-
-    def flush(self):
-        if not self._done and not self.closed:
-            self._fs._commit(self._path, self.getvalue())
-        io.StringIO.flush(self)
-
-    def close(self):
-        if not self._done:
-            self._fs._commit(self._path, self.getvalue())
-            self._fs.trace.append(("close_w", self._path, len(self.getvalue())))
-            self._done = True
-        io.StringIO.close(self)
-
-
-class _BinWriteHandle(io.BytesIO):
-    def __init__(self, fs, path):
-        io.BytesIO.__init__(self)
-        self._fs = fs
-        self._path = path
-        self._done = False
-        self.name = path
-        self.mode = "wb"
-
-    def flush(self):
-        if not self._done and not self.closed:
-            self._fs.files[self._path] = self.getvalue()
-        io.BytesIO.flush(self)
-
-    def close(self):
-        if not self._done:
-            self._fs.files[self._path] = self.getvalue()
-            self._fs.trace.append(("close_w", self._path, len(self.getvalue())))
-            self._done = True
-        io.BytesIO.close(self)
-
-
-class _BinReadHandle(object):
-    """What open(p, 'rb') returns: exact-length reads, recorded, with an
-    optional EIO armed at a byte offset."""
-
-    def __init__(self, fs, path, data, eio_at=None):
-        self._fs = fs
-        self._path = path
-        self._data = data
-        self._pos = 0
+        self._p = simpath
         self._eio_at = eio_at
-        self.closed = False
-        self.name = path
-        self.mode = "rb"
 
     def read(self, n=-1):
-        if self.closed:
-            raise ValueError("I/O operation on closed file.")
-        if n is None or n < 0:
-            n = len(self._data) - self._pos
-        end = min(len(self._data), self._pos + n)
-        if self._eio_at is not None and self._pos <= self._eio_at < max(end, self._pos + 1) and self._eio_at < max(len(self._data), 1):
-            self._fs.fired("F6.eio_at_offset")
-            self._fs.trace.append(("read_eio", self._path, self._pos, n))
-            self._eio_at = None
-            raise OSError(errno.EIO, "Input/output error (injected)", self._path)
-        chunk = self._data[self._pos:end]
-        self._fs.trace.append(("read", self._path, self._pos, n, len(chunk)))
-        self._pos = end
+        pos = self._f.tell()
+        if self._eio_at is not None:
+            want_end = pos + n if (n is not None and n >= 0) else float("inf")
+            if pos <= self._eio_at < max(want_end, pos + 1):
+                self._eio_at = None
+                self._fs.fired("F6.eio_at_offset")
+                self._fs.trace.append(("read_eio", self._p, pos, n))
+                raise OSError(errno.EIO, "Input/output error (injected)", self._p)
+        chunk = self._f.read(n)
+        self._fs.trace.append(("read", self._p, pos, n, len(chunk)))
         return chunk
 
     def readinto(self, b):
@@ -113,86 +145,95 @@ class _BinReadHandle(object):
         b[:len(chunk)] = chunk
         return len(chunk)
 
-    def seek(self, off, whence=0):
-        if whence == 0:
-            self._pos = off
-        elif whence == 1:
-            self._pos += off
-        else:
-            self._pos = len(self._data) + off
-        return self._pos
+    def read1(self, n=-1):
+        return self.read(n)
 
-    def tell(self):
-        return self._pos
+    def readall(self):
+        return self.read()
 
-    def seekable(self):
-        return True
-
-    def readable(self):
-        return True
-
-    def fileno(self):
-        # a simulated descriptor: os.fstat() on it is answered by the os proxy
-        if getattr(self, "_fd", None) is None:
-            self._fd = self._fs.new_fd(self._path)
-        return self._fd
-
-    def close(self):
-        self.closed = True
+    def __iter__(self):
+        return iter(self.read().splitlines(True))
 
     def __enter__(self):
         return self
 
     def __exit__(self, *a):
-        self.close()
+        self._f.close()
         return False
 
+    def __getattr__(self, name):
+        return getattr(self._f, name)
+
+
+class _FaultyText(object):
+    """a text handle whose first read fails with EIO (armed F6.eio_at_offset on a text-mode open)"""
+
+    def __init__(self, f, fs, simpath):
+        self._f = f
+        self._fs = fs
+        self._p = simpath
+        self._armed = True
+
+    def _maybe(self):
+        if self._armed:
+            self._armed = False
+            self._fs.fired("F6.eio_at_offset")
+            self._fs.trace.append(("read_eio", self._p))
+            raise OSError(errno.EIO, "Input/output error (injected)", self._p)
+
+    def read(self, *a):
+        self._maybe()
+        return self._f.read(*a)
+
+    def readline(self, *a):
+        self._maybe()
+        return self._f.readline(*a)
+
+    def readlines(self, *a):
+        self._maybe()
+        return self._f.readlines(*a)
+
     def __iter__(self):
-        return iter(self.read().splitlines(True))
+        self._maybe()
+        return iter(self._f)
 
+    def __enter__(self):
+        return self
 
-class _TextReadHandle(io.TextIOWrapper):
-    pass
+    def __exit__(self, *a):
+        self._f.close()
+        return False
+
+    def __getattr__(self, name):
+        return getattr(self._f, name)
 
 
 class SimFS(object):
     def __init__(self, ctx=None):
-        self.files = {}
-        self.dirs = set([ROOT, "/"])
-        self.trace = []
         self.ctx = ctx
+        self.trace = []
         self.armed = {}        # kind -> dict(path=..., ...)   one-shot faults
         self.listdir_rng = None
         self.listdir_mode = "sorted"
-        self.open_counts = {}
+        self.wipe()
 
-    # ---- simulated descriptors / stat -----------------------------------
-    def new_fd(self, path):
-        if not hasattr(self, "fds"):
-            self.fds = {}
-        fd = 100000 + len(self.fds)
-        self.fds[fd] = path
-        return fd
+    # ---- the private directory ---------------------------------------------------------------
+    def wipe(self):
+        r = real_root()
+        for name in _o["listdir"](r):
+            p = os.path.join(r, name)
+            if os.path.isdir(p) and not os.path.islink(p):
+                shutil.rmtree(p, ignore_errors=True)
+            else:
+                try:
+                    _o["remove"](p)
+                except OSError:
+                    pass
 
-    def stat(self, path):
-        import os
-        import stat as _stat
-        path = norm(path)
-        if path in self.files:
-            mode, size = _stat.S_IFREG | 0o644, len(self.files[path])
-        elif path in self.dirs:
-            mode, size = _stat.S_IFDIR | 0o755, 4096
-        else:
-            raise FileNotFoundError(errno.ENOENT, "No such file or directory", path)
-        return os.stat_result((mode, 1, 1, 1, 0, 0, size, 0, 0, 0))
+    def real(self, path):
+        return to_real(path)
 
-    def fstat(self, fd):
-        path = getattr(self, "fds", {}).get(fd)
-        if path is None:
-            raise OSError(errno.EBADF, "Bad file descriptor")
-        return self.stat(path)
-
-    # ---- bookkeeping -------------------------------------------------
+    # ---- bookkeeping ------------------------------------------------------------------------------
     def fired(self, kind):
         if self.ctx is not None:
             self.ctx.fault(kind)
@@ -215,180 +256,114 @@ class SimFS(object):
             return a
         return None
 
-    def _commit(self, path, text):
-        self.files[path] = text.encode("utf-8")
-
-    # ---- harness-side helpers (not traced) ------------------------------
+    # ---- harness-side helpers (not traced, not subject to faults) --------------------------------------
     def mkdirs(self, path):
-        path = norm(path)
-        parts = path.split("/")
-        for i in range(2, len(parts) + 1):
-            self.dirs.add("/".join(parts[:i]) or "/")
+        _o["makedirs"](to_real(path), exist_ok=True)
 
     def put(self, path, data):
-        path = norm(path)
-        self.mkdirs(posixpath.dirname(path))
+        real = to_real(path)
+        _o["makedirs"](os.path.dirname(real), exist_ok=True)
         if isinstance(data, str):
             data = data.encode("utf-8")
-        self.files[path] = data
+        with _o_open(real, "wb") as f:
+            f.write(data)
+        _o["utime"](real, (_FIXED_MTIME, _FIXED_MTIME))
 
     def get(self, path):
-        return self.files.get(norm(path))
+        try:
+            with _o_open(to_real(path), "rb") as f:
+                return f.read()
+        except (FileNotFoundError, IsADirectoryError, NotADirectoryError):
+            return None
 
     def remove(self, path):
-        path = norm(path)
-        self.files.pop(path, None)
+        try:
+            _o["remove"](to_real(path))
+        except OSError:
+            pass
 
     def rmtree(self, path):
-        path = norm(path)
-        for p in [p for p in self.files if p == path or p.startswith(path + "/")]:
-            del self.files[p]
-        for d in [d for d in self.dirs if d == path or d.startswith(path + "/")]:
-            self.dirs.discard(d)
+        shutil.rmtree(to_real(path), ignore_errors=True)
+
+    def is_file(self, path):
+        return os.path.isfile(to_real(path))
+
+    def is_dir(self, path):
+        return os.path.isdir(to_real(path))
+
+    def _walk(self):
+        r = real_root()
+        files, dirs = set(), set([ROOT, "/"])
+        for dp, dn, fn in _o["walk"](r):
+            sim_dp = ROOT + dp[len(r):]
+            dirs.add(sim_dp)
+            for f in fn:
+                files.add(sim_dp + "/" + f)
+        return files, dirs
+
+    @property
+    def files(self):
+        return self._walk()[0]
+
+    @property
+    def dirs(self):
+        return self._walk()[1]
 
     def snapshot(self):
-        return dict(self.files)
+        return dict((p, self.get(p)) for p in self.files)
 
-    # ---- what productmd sees ---------------------------------------------
+    # ---- what the code under test reaches through the interposed builtins.open ----------------------------
     def open(self, path, mode="r", *args, **kwargs):
         path = norm(path)
-        self.open_counts[(path, mode)] = self.open_counts.get((path, mode), 0) + 1
-        if "w" in mode or "a" in mode or "x" in mode or "+" in mode:
-            parent = posixpath.dirname(path)
-            if parent not in self.dirs:
-                self.trace.append(("open_w_enoent", path))
-                raise FileNotFoundError(errno.ENOENT, "No such file or directory", path)
-            if path in self.dirs:
-                raise IsADirectoryError(errno.EISDIR, "Is a directory", path)
-            if "x" in mode and path in self.files:
-                raise FileExistsError(errno.EEXIST, "File exists", path)
-            if "a" in mode or ("+" in mode and "w" not in mode):
-                prev = self.files.get(path, b"")
-            else:
-                prev = b""
-                self.files[path] = b""          # truncation happens at open time
+        real = to_real(path)
+        if any(c in mode for c in "wax+"):
+            try:
+                f = _o_open(real, mode, *args, **kwargs)
+            except OSError as e:
+                self.trace.append(("open_w_fail", path, type(e).__name__))
+                raise type(e)(e.errno, e.strerror, path) if e.errno else e
             self.trace.append(("open_w", path, mode))
-            if "b" in mode:
-                h = _BinWriteHandle(self, path)
-                h.write(prev)
-            else:
-                h = _WriteHandle(self, path)
-                h.write(prev.decode("utf-8", "replace"))
-            return h
+            return f
         # read
         if self._take("F6.vanish_after_exists", path) is not None:
             self.fired("F6.vanish_after_exists")
-            self.files.pop(path, None)
-        if path in self.dirs:
-            self.trace.append(("open_r_isdir", path))
-            raise IsADirectoryError(errno.EISDIR, "Is a directory", path)
-        if path not in self.files:
-            self.trace.append(("open_r_enoent", path))
-            raise FileNotFoundError(errno.ENOENT, "No such file or directory", path)
-        a = self._take("F6.eio_on_open", path)
+            try:
+                _o["remove"](real)
+            except OSError:
+                pass
+        a = self._take("F6.eio_on_open", path) if os.path.isfile(real) else None
         if a is not None:
             self.fired("F6.eio_on_open")
             self.trace.append(("open_r_eio", path))
             raise OSError(a.get("errno", errno.EIO), "Input/output error (injected)", path)
-        a = self._take("F6.eacces_on_open", path)
+        a = self._take("F6.eacces_on_open", path) if os.path.isfile(real) else None
         if a is not None:
             self.fired("F6.eacces_on_open")
             self.trace.append(("open_r_eacces", path))
             raise PermissionError(errno.EACCES, "Permission denied (injected)", path)
-        data = self.files[path]
+        try:
+            f = _o_open(real, mode, *args, **kwargs)
+        except OSError as e:
+            self.trace.append(("open_r_fail", path, type(e).__name__))
+            raise type(e)(e.errno, e.strerror, path) if e.errno else e
         eio_at = None
         a = self._take("F6.eio_at_offset", path)
         if a is not None:
             eio_at = a.get("offset", 0)
         self.trace.append(("open_r", path, mode))
         if "b" in mode:
-            return _BinReadHandle(self, path, data, eio_at)
+            return _TracingReader(f, self, path, eio_at)
         if eio_at is not None:
-            # text handles read everything at once: an armed EIO fires on read
-            raw = _EIOBytes(self, path, data, eio_at)
-        else:
-            raw = io.BytesIO(data)
-        h = io.TextIOWrapper(raw, encoding=kwargs.get("encoding") or "utf-8", errors=kwargs.get("errors"))
-        return h
-
-    def exists(self, path):
-        path = norm(path)
-        r = path in self.files or path in self.dirs
-        self.trace.append(("exists", path, r))
-        return r
-
-    def isdir(self, path):
-        return norm(path) in self.dirs
-
-    def isfile(self, path):
-        return norm(path) in self.files
+            return _FaultyText(f, self, path)
+        return f
 
     def listdir(self, path):
-        path = norm(path)
-        if path not in self.dirs:
-            if path in self.files:
-                raise NotADirectoryError(errno.ENOTDIR, "Not a directory", path)
-            raise FileNotFoundError(errno.ENOENT, "No such file or directory", path)
-        pre = path.rstrip("/") + "/"
-        names = set()
-        for p in list(self.files) + list(self.dirs):
-            if p.startswith(pre) and p != path:
-                names.add(p[len(pre):].split("/")[0])
-        names = sorted(names)
+        path_s = os.fspath(path) if not isinstance(path, str) else path
+        names = sorted(_o["listdir"](to_real(path_s)))
         if self.listdir_mode == "reverse":
             names.reverse()
         elif self.listdir_mode == "shuffle" and self.listdir_rng is not None:
             self.listdir_rng.shuffle(names)
             self.fired("F7.listdir_order")
-        self.trace.append(("listdir", path, len(names)))
+        self.trace.append(("listdir", norm(path_s), len(names)))
         return names
-
-    # write-side directory ops, for completeness of the os proxy
-    def os_remove(self, path):
-        path = norm(path)
-        if path not in self.files:
-            raise FileNotFoundError(errno.ENOENT, "No such file or directory", path)
-        del self.files[path]
-        self.trace.append(("remove", path))
-
-    def os_rename(self, src, dst):
-        src, dst = norm(src), norm(dst)
-        if src not in self.files:
-            raise FileNotFoundError(errno.ENOENT, "No such file or directory", src)
-        if posixpath.dirname(dst) not in self.dirs:
-            raise FileNotFoundError(errno.ENOENT, "No such file or directory", dst)
-        self.files[dst] = self.files.pop(src)
-        self.trace.append(("rename", src, dst))
-
-    def os_makedirs(self, path, exist_ok=False):
-        path = norm(path)
-        if path in self.dirs and not exist_ok:
-            raise FileExistsError(errno.EEXIST, "File exists", path)
-        self.mkdirs(path)
-
-
-class _EIOBytes(io.BytesIO):
-    def __init__(self, fs, path, data, eio_at):
-        io.BytesIO.__init__(self, data)
-        self._fs = fs
-        self._p = path
-        self._eio_at = eio_at
-
-    def _maybe(self):
-        if self._eio_at is not None:
-            self._eio_at = None
-            self._fs.fired("F6.eio_at_offset")
-            self._fs.trace.append(("read_eio", self._p))
-            raise OSError(errno.EIO, "Input/output error (injected)", self._p)
-
-    def read(self, *a):
-        self._maybe()
-        return io.BytesIO.read(self, *a)
-
-    def read1(self, *a):
-        self._maybe()
-        return io.BytesIO.read1(self, *a)
-
-    def readinto(self, b):
-        self._maybe()
-        return io.BytesIO.readinto(self, b)
